@@ -62,11 +62,13 @@ class Scenario:
 
 def build_scenario(tape, kinds=("query", "mutation"), incremental=False, max_requests=3,
                    allow_hang=False, max_depth=4, budget=26, want_r0=False,
-                   allow_async=True):
+                   allow_async=True, focus=None):
     """Returns a Scenario, or None when a generated document is rejected by validate()."""
     spec = SchemaSpec(tape, incremental)
     schema = build_world_schema(spec)
     type_mode = TYPE_MODES[tape.weighted((3, 2, 2), "type_mode")]
+    if focus == "seriality":
+        type_mode = "typename"
     attach(schema, type_mode)
     data = Data(tape.draw(1 << 16, "salt"))
     world = World(schema, spec, data, type_mode)
@@ -81,7 +83,7 @@ def build_scenario(tape, kinds=("query", "mutation"), incremental=False, max_req
         errs = validate(schema, doc)
         if errs:
             return Scenario(world, [], rejected=1)
-        cfg = PlanConfig(tape, allow_hang=allow_hang, allow_async=allow_async)
+        cfg = PlanConfig(tape, allow_hang=allow_hang, allow_async=allow_async, focus=focus)
         planner = Planner(tape, cfg)
         model = Model(schema, doc, data, planner, type_mode)
         variables = gen.variables_for(opname)
